@@ -26,6 +26,7 @@ func checkC19(p *Prog, r *Report) {
 	ruleOffs(p, r)
 	ruleConvDispatch(p, r)
 	ruleTblFill(p, r)
+	rulePix16(p, r)
 	r.Floor("DISPATCH", 3)
 	r.Floor("FILL", 4)
 	r.Floor("OFFS", 3)
@@ -1630,6 +1631,7 @@ func ruleConvDispatch(p *Prog, r *Report) {
 		if len(asserted) == 0 {
 			continue
 		}
+		ruleNoSkip(p, r, f)
 		eachCall(f, func(site ssa.CallInstruction) {
 			// static callee, or the converter selected through a package-level function variable
 			name := ""
@@ -1667,6 +1669,159 @@ func ruleConvDispatch(p *Prog, r *Report) {
 				}
 			}
 		})
+	}
+}
+
+// ruleNoSkip (reported under DISPATCH): a dispatcher returns without having called a converter only under a test of
+// the image's dimensions (the non-square refusal that SIZEG's guard at the entry points makes unreachable). Any other
+// early return - a plane-length "sanity" check, a type that is silently ignored - leaves the pooled pixel buffer as
+// the previous image left it, and the hash is then computed from that.
+func ruleNoSkip(p *Prog, r *Report, f *ssa.Function) {
+	isImg := func(t types.Type) bool {
+		s := t.String()
+		return s == "image.Image" || strings.HasPrefix(s, "*image.")
+	}
+	conv := map[*ssa.BasicBlock]bool{}
+	eachCall(f, func(site ssa.CallInstruction) {
+		c := site.Common()
+		if c.IsInvoke() {
+			return
+		}
+		if _, isB := c.Value.(*ssa.Builtin); isB {
+			return
+		}
+		// a converter gets the image and the destination buffer
+		img, dst := false, false
+		for _, a := range c.Args {
+			if isImg(a.Type()) {
+				img = true
+			}
+			if ts := a.Type().String(); strings.HasSuffix(ts, "[]float32") || strings.HasSuffix(ts, "[]float64") {
+				dst = true
+			}
+		}
+		if img && dst {
+			conv[site.Block()] = true
+		}
+	})
+	if len(conv) == 0 {
+		return
+	}
+	key := fnName(f) + " | returns without converting only on a test of the image dimensions"
+	var dimOnly func(v ssa.Value, d int) string
+	dimOnly = func(v ssa.Value, d int) string {
+		if d > 10 {
+			return "a condition too deep to follow"
+		}
+		switch x := v.(type) {
+		case *ssa.Const:
+			return ""
+		case *ssa.BinOp:
+			if w := dimOnly(x.X, d+1); w != "" {
+				return w
+			}
+			return dimOnly(x.Y, d+1)
+		case *ssa.UnOp:
+			return dimOnly(x.X, d+1)
+		case *ssa.Convert:
+			return dimOnly(x.X, d+1)
+		case *ssa.Field:
+			return dimOnly(x.X, d+1)
+		case *ssa.FieldAddr:
+			return dimOnly(x.X, d+1)
+		case *ssa.Extract:
+			return dimOnly(x.Tuple, d+1)
+		case *ssa.Alloc:
+			for _, rf := range refs(x) {
+				if st, ok := rf.(*ssa.Store); ok && st.Addr == ssa.Value(x) {
+					if w := dimOnly(st.Val, d+1); w != "" {
+						return w
+					}
+				}
+			}
+			return ""
+		case *ssa.Phi:
+			for _, e := range x.Edges {
+				if w := dimOnly(e, d+1); w != "" {
+					return w
+				}
+			}
+			return ""
+		case *ssa.Call:
+			c := &x.Call
+			if c.IsInvoke() && c.Method.Name() == "Bounds" {
+				return ""
+			}
+			if sc := c.StaticCallee(); sc != nil {
+				switch sc.String() {
+				case "(image.Rectangle).Dx", "(image.Rectangle).Dy", "(image.Rectangle).Size", "(image.Rectangle).Empty":
+					return dimOnly(c.Args[0], d+1)
+				}
+				return "the result of " + shortCallee(c)
+			}
+			return "the result of a dynamic call"
+		case *ssa.TypeAssert:
+			return "" // the type switch itself selects the converter
+		case *ssa.Parameter:
+			return ""
+		}
+		return "the value " + shortVal(v)
+	}
+	bad := ""
+	for _, b := range f.Blocks {
+		if len(b.Instrs) == 0 || bad != "" {
+			continue
+		}
+		rt, ok := b.Instrs[len(b.Instrs)-1].(*ssa.Return)
+		if !ok {
+			continue
+		}
+		dominated := false
+		for cb := range conv {
+			if cb.Dominates(b) {
+				dominated = true
+			}
+		}
+		if dominated {
+			continue
+		}
+		// can the return be reached without passing a converter call at all?
+		seen := map[*ssa.BasicBlock]bool{f.Blocks[0]: true}
+		st := []*ssa.BasicBlock{f.Blocks[0]}
+		reach := false
+		for len(st) > 0 {
+			x := st[len(st)-1]
+			st = st[:len(st)-1]
+			if x == b {
+				reach = !conv[x]
+				break
+			}
+			if conv[x] {
+				continue
+			}
+			for _, s := range x.Succs {
+				if !seen[s] {
+					seen[s] = true
+					st = append(st, s)
+				}
+			}
+		}
+		if !reach {
+			continue
+		}
+		for _, cd := range condsAt(b) {
+			if _, isTA := cd.V.(*ssa.Extract); isTA {
+				continue // comma-ok of the type switch
+			}
+			if w := dimOnly(cd.V, 0); w != "" {
+				bad = fmt.Sprintf("the return at %s leaves without converting under a condition on %s: the pooled pixel buffer keeps what the previous image left in it and the hash is computed from that", p.posStr(rt.Pos()), w)
+			}
+		}
+	}
+	if bad != "" {
+		r.Bad("DISPATCH", key, p.posStr(f.Pos()), bad)
+	} else {
+		r.OK("DISPATCH", key, p.posStr(f.Pos()), "every return without a converter call is under a test of the bounds only")
 	}
 }
 
